@@ -22,7 +22,10 @@ def unescape_string(value: str, token: Token, quote: str = '"') -> str:
 
 
 def _decode_escape_sequence(  # noqa: PLR0911
-    value: str, index: int, token: Token, quote: str
+    value: str,
+    index: int,
+    token: Token,
+    quote: str,  # noqa: ARG001
 ) -> tuple[str, int]:
     try:
         ch = value[index]
@@ -30,8 +33,9 @@ def _decode_escape_sequence(  # noqa: PLR0911
         raise PestGrammarSyntaxError("incomplete escape sequence", token=token) from err
 
     # TODO: match these to Rust?
-    if ch == quote:
-        return quote, index
+    if ch in ('"', "'"):
+        # Either quote can be escaped, whichever of them delimits the literal.
+        return ch, index
     if ch == "\\":
         return "\\", index
     if ch == "/":
